@@ -208,7 +208,9 @@ def handle (j : Json) : Except String Verdict := do
         | some row =>
           let blamed := blameRow ext fields row
           if !containsMalformed row && !blamed.isEmpty && !ma.isEmpty then
-            if ia.lookup "field" == none || !blamed.contains ((ia.lookup "field").getD "") then
+            -- (a refusal by an `UnknownVariant` placeholder is outside the claim: see Driver/Suites/Build.lean)
+            if ia.lookup "field" == none ||
+                (!blamed.contains ((ia.lookup "field").getD "") && ia.lookup "data_type" != some "<unknown variant>") then
               c18 := "fail"
               if sig == "" then
                 sig := s!"hist/C18/{opName op}/after-builds={if nbuilt == 0 then "0" else "N"}"
